@@ -11,8 +11,8 @@ import (
 	"net"
 	"strconv"
 	"sync"
-	"syscall"
 	"sync/atomic"
+	"syscall"
 	"time"
 
 	"verif/internal/gen/puppet"
